@@ -75,7 +75,9 @@ func (s *source) rec(pid peer.ID, v int) *model.ProviderInfo {
 			Contextual: []model.ContextualExtendedProviders{{
 				ContextID: "ctx",
 				Providers: []peer.AddrInfo{{ID: z}},
-				Metadatas: [][]byte{[]byte("z-md")},
+				// what is registered for the context changes from one version of
+				// the record to the next, like everything else in it
+				Metadatas: [][]byte{[]byte(fmt.Sprintf("z-md-v%d", v))},
 			}},
 		},
 	}
@@ -129,6 +131,18 @@ func (s *source) FetchAll(ctx context.Context) ([]*model.ProviderInfo, error) {
 
 func (s *source) String() string { return "gated-fake" }
 
+// ctxVer: the version of the record that the context-level entry of an
+// expanded result list comes from (0 = no such entry).
+func ctxVer(res []model.ProviderResult) int {
+	for _, r := range res {
+		var v int
+		if n, _ := fmt.Sscanf(string(r.Metadata), "z-md-v%d", &v); n == 1 {
+			return v
+		}
+	}
+	return 0
+}
+
 func firstLine(s string) string {
 	if i := strings.IndexByte(s, '\n'); i >= 0 {
 		return s[:i]
@@ -160,7 +174,9 @@ func readerThread(e *sched.Exec, w *world, name string) sched.Thread {
 		}
 		e.Log("%s List P=%d", name, lv)
 		res, err := w.pc.GetResults(ctx, pP, []byte("ctx"), []byte("md"))
-		e.Log("%s GetResults n=%d err=%v", name, len(res), err)
+		// the expansion is a read of one version of the record like any other:
+		// its context-level entry names the version it comes from
+		e.Log("%s GetResults P=%d n=%d err=%v", name, ctxVer(res), len(res), err)
 		pi, err = w.pc.Get(ctx, pP)
 		e.Log("%s Get P=%d err=%v", name, verOf(pi), err)
 		// the records a reader was handed are snapshots: whatever writers do
@@ -215,7 +231,7 @@ func checkReaders(e *sched.Exec, name string, threads []string, versions map[int
 		}
 		f := strings.Fields(l)
 		if len(f) < 3 || !strings.HasPrefix(f[0], "R") || !strings.HasPrefix(f[2], "P=") {
-			if len(f) >= 3 && strings.HasPrefix(f[0], "R") && f[1] == "GetResults" && f[2] == "n=0" {
+			if len(f) >= 4 && strings.HasPrefix(f[0], "R") && f[1] == "GetResults" && f[3] == "n=0" {
 				out = append(out, sched.Finding{Sig: name + ":cached-provider-reported-missing", Msg: l})
 			}
 			continue
@@ -507,7 +523,7 @@ func autoRefreshDueReaders() *sched.Scenario {
 			}
 			results := func(n string) {
 				res, err := pc.GetResults(context.Background(), pP, []byte("ctx"), []byte("md"))
-				e.Log("%s GetResults n=%d err=%v", n, len(res), err)
+				e.Log("%s GetResults P=%d n=%d err=%v", n, ctxVer(res), len(res), err)
 			}
 			get := func(n string) {
 				pi, err := pc.Get(context.Background(), pP)
